@@ -116,6 +116,7 @@ Definition interp_match (c : ictx) (tname : str) (k : ekind) (expr : str) (it va
 (* Table.interpreterUpdate: with the native interpreter on there is no fallback *)
 Definition poke_marker : str := bs "@poke".
 Definition scalar_marker : str := bs "@pokes".
+Definition drop_marker : str := bs "@drop".
 
 Definition interp_update (c : ictx) (tname expr : str) (it vals : item) (names : fmap str)
   : outcome (item * list nat) :=
@@ -125,7 +126,7 @@ Definition interp_update (c : ictx) (tname expr : str) (it vals : item) (names :
         (* the callbacks the harness registers: they set the attributes of [set]; when [set] carries the marker attribute
            "@poke" they also write, in place, the entry poked -> "p" into every top-level map attribute of the item (an
            updater is arbitrary user code working on the item it is handed) *)
-        let it0 := fold_left (fun acc kv => insert (fst kv) (snd kv) acc) (remove scalar_marker (remove poke_marker set)) it in
+        let it0 := fold_left (fun acc kv => insert (fst kv) (snd kv) acc) (remove drop_marker (remove scalar_marker (remove poke_marker set))) it in
         (* marker "@pokes": the scalar attribute x is changed in place, through the pointer the item holds *)
         let it1 := if mem scalar_marker set
                    then match lookup (bs "x") it0 with
@@ -134,9 +135,11 @@ Definition interp_update (c : ictx) (tname expr : str) (it vals : item) (names :
                         | _ => it0
                         end
                    else it0 in
-        Ok (if mem poke_marker set
+        let it2 := if mem poke_marker set
             then map (fun kv => match snd kv with AM m => (fst kv, AM (insert (bs "poked") (AS (bs "p")) m)) | _ => kv end) it1
-            else it1, [id])
+            else it1 in
+        (* marker "@drop": the updater deletes the attribute the marker names *)
+        Ok (match lookup drop_marker set with Some (AS n) => remove n it2 | _ => it2 end, [id])
     | None => Err Unsupported
     end
   else omap (fun i => (i, [])) (lang_update expr it vals names).
